@@ -38,8 +38,15 @@ def build_case(r, art, k, stream):
     init = {}      # (region, lo, hi, id, delta)
     name_to_eq = {}
 
+    addr_to_eq = {}
+
     def note(t):
         if t:
+            if t.get("address") is not None and t["mem_type"] in ("Scratch", "Scratch_fast"):
+                n = 1
+                for d in t["shape"]:
+                    n *= d
+                addr_to_eq.setdefault((t["address"], n * t["element_size"]), t["eq_id"])
             name_to_eq.setdefault(t["name"], t["eq_id"])
             if t.get("src_tensor"):
                 name_to_eq.setdefault(t["src_tensor"], t["eq_id"])
@@ -142,6 +149,10 @@ def build_case(r, art, k, stream):
             n *= d
         size = n * ELEM.get(t["type"], 1)
         eq = name_to_eq.get(t["name"]) or name_to_eq.get(t["name"] + "_npu")
+        if eq is None:
+            # a reshape / squeeze of a subgraph input is bypassed: the consumer reads another tensor object placed
+            # at the very same arena address with the same byte size (aliasing by construction)
+            eq = addr_to_eq.get((off, size))
         if eq is None:
             continue   # not consumed by this stream
         init[(1, off, off + size, tid(eq), off)] = None
